@@ -521,9 +521,9 @@ class Array(metaclass=MetaArray):
                 value = value.transpose(info.order)
             buffer.update_from_nplike(coffset, cls._itemtype._dtype, value)
         elif isinstance(value, cls) and not cls._has_refs:  # binary copy
-            if value._size == info.size:
+            if value._get_size() == info.size:
                 buffer.update_from_xbuffer(
-                    offset, value._buffer, value._offset, value._size
+                    offset, value._buffer, value._offset, info.size
                 )
             else:
                 raise ValueError("Value {value} not compatible size")
@@ -603,7 +603,7 @@ class Array(metaclass=MetaArray):
             index = (index,)
         cls = self.__class__
         if hasattr(self, "_offsets"):
-            offset = self._offset + self._offsets[index]
+            offset = self._offset + self._stored_item_offset(index)
         else:
             bound_check(index, self._shape)
             offset = (
@@ -621,7 +621,7 @@ class Array(metaclass=MetaArray):
             self[index]._update(value)
         else:
             if hasattr(self, "_offsets"):
-                offset = self._offset + self._offsets[index]
+                offset = self._offset + self._stored_item_offset(index)
             else:
                 bound_check(index, self._shape)
                 offset = (
@@ -664,7 +664,7 @@ class Array(metaclass=MetaArray):
             index = (index,)
         cls = self.__class__
         if hasattr(self, "_offsets"):
-            offset = self._offset + self._offsets[index]
+            offset = self._offset + self._stored_item_offset(index)
         else:
             bound_check(index, self._shape)
             offset = (
@@ -673,6 +673,22 @@ class Array(metaclass=MetaArray):
                 + get_offset(index, self._strides)
             )
         return offset
+
+    def _stored_item_offset(self, index):
+        """Offset, relative to the array, of a dynamically sized item as the
+        table in the buffer has it now (a copy of the table kept in the
+        handle goes stale when the array is rewritten through another
+        handle or the buffer storage is replaced)"""
+        index = tuple(  # negative indices count from the end
+            ii + ss if ii < 0 else ii for ii, ss in zip(index, self._shape)
+        )
+        bound_check(index, self._shape)
+        return Int64._from_buffer(
+            self._buffer,
+            self._offset
+            + self.__class__._data_offset
+            + get_offset(index, self._strides),
+        )
 
     def _iter_index(self):
         return iter_index(self._shape, self._order)
